@@ -9,29 +9,38 @@ bind  : spec -> code: every enumerated (model, lattice, centres, FFT grid, K-shi
         matrices rounded to cyclotomic integers (integrality verified) and validated by TLC against TBFourierRec.tla.
 """
 import copy
+import os
 import random
 from collections import defaultdict
 
 import numpy as np
 
-from .. import tlc, ftable
+from .. import tlc
 from ..common import Report, MachineryError, seed, quiet
 from . import cyclo12 as cy
-from .tbf_common import (cyclo_library_check, fast_dump_states, build_system, exact_rows_array, validate_parallel, TOL)
+from .tbf_common import (cyclo_library_check, sorted_states, build_system, exact_rows_array, validate_parallel, enumerate_states, run_tlc,
+                         drop_scratch, guarded, skipped_private, finish_on_error, project_exact, TOL)
 
 PROPS = {
     "C02": dict(level="model_checking",
                 technique="TLC exhaustive on TBFourier.tla (exact Z[zeta12] Fourier sums: explicit sum vs FFT placement/aliasing/K-shift/"
                           "reshape path, Hermiticity, derivatives 0-3) + replay of the enumerated inputs on Data_K_R / Rvectors.R_to_k for "
                           "fftw, numpy, slow and k-list + TLC validation of recorded k-space matrices",
-                text="TLC enumerates Hermitian tight-binding models (1-2 orbitals, R within +-2 in 1-D/2-D, amplitudes 1,i,-1,-i, cubic and "
-                     "non-orthogonal integer lattices, centres in quarters), FFT grids from {1,2,3,4,6} (also smaller than recommended) and "
-                     "K-shifts in twelfths; it checks that the FFT path equals the explicit sum at every point of kpoints_all for derivative "
-                     "orders 0-3, that all matrices are Hermitian and periodic in k. Each enumerated input is executed on the real code with "
-                     "every back end and compared with the exact values; random larger exact models are recorded from the code and every "
-                     "clause of TBFourierRec is evaluated on them by TLC; random real-valued models compare the back ends with each other.",
+                text="TLC enumerates Hermitian tight-binding models (1-2 orbitals, 3 in thorough; R within +-2 in 1-D/2-D, +-1 in 3-D "
+                     "(thorough); amplitudes 1,i,-1,-i, cubic and non-orthogonal integer lattices, centres in quarters), FFT grids from "
+                     "{1,2,3,4,6} (also smaller than recommended) and K-shifts in twelfths; it checks that the FFT path equals the explicit "
+                     "sum at every point of kpoints_all for derivative orders 0-3 (order 3 in 1-D R-sets only), that all matrices are "
+                     "Hermitian and periodic in k (periodicity on the specification only; on the code through reciprocal-lattice shifts of "
+                     "the k-list). Each enumerated input is executed on the real code with numpy, one more seeded FFT back end (fftw or "
+                     "slow) and the k-list, every stride-th input (quick: every 2nd / 4th) with all of them, and compared with the exact "
+                     "values at the k-points the code itself reports (any order of the grid); random larger exact models are recorded from "
+                     "the code and every clause of TBFourierRec is evaluated on them by TLC; random real-valued models (FFT sizes with "
+                     "factors 5, 7, 11, up to 16) compare the back ends with each other.",
                 note="amplitudes are cyclotomic integers and centres quarters of lattice vectors, so the exact k-space values are in "
-                     "Z[zeta12]/4^der; Xbar is brought back to the Wannier gauge with the Data_K's own UU_K before comparison",
+                     "Z[zeta12]/4^der; Xbar is brought back to the Wannier gauge with the Data_K's own UU_K before comparison. The exact "
+                     "table fixes conventions the statement does not name (sign of the Fourier phase, no centre phase in H(k), derivative "
+                     "factor i(R + tau_b - tau_a)): a uniform change of convention in all back ends is reported under the keys HH_K / Xbar "
+                     "/ R_to_k although backends_differ stays silent. Only the matrix 'Ham'.",
                 ref="DESIGN.md 3.4"),
 }
 
